@@ -116,6 +116,8 @@ class Loud(Formatter):
 class Field:
     def __init__(self, v):
         self.v = v
+        self.value = "inner-" + str(v)      # attribute names a wrapper might use for itself
+        self.key = "K" + str(v)
     def __str__(self):
         text = "F(" + str(self.v) + ")"
         return text
@@ -188,7 +190,7 @@ def build(seed, tier):
                 elif m < 0.45:
                     kw['message_template'] = repr(r.choice(['custom {value}', 'custom {who:name} {where:line} {value:python_value}',
                                                             'no fields', '{value:>5}|', '', 'file {who:filename} {who:>7:filename}',
-                                                            'reach {where.v} {value[0]}', '{value[0]:name}']))
+                                                            'reach {where.v} {value[0]}', '{value[0]:name}', 'inner {where.value} {where.key:name}']))
             for f in ('value', 'who', 'where'):
                 if cls == 'give_partial' and f == 'value':
                     continue          # give_partial(value) takes its score positionally
@@ -252,10 +254,18 @@ class ModelWrap:
     method; the remainder of the spec is applied to the result; no spec = str(value)."""
 
     def __init__(self, value, formatter, available=None):
-        self.value, self.formatter = value, formatter
+        object.__setattr__(self, '_mw', (value, formatter))
+
+    @property
+    def _mw_value(self):
+        return object.__getattribute__(self, '_mw')[0]
+
+    @property
+    def _mw_formatter(self):
+        return object.__getattribute__(self, '_mw')[1]
 
     def __format__(self, spec):
-        text = str(self.value)
+        text = str(self._mw_value)
         # the method whose name the spec ends with; 'filename' is not 'name' (the longest name wins)
         hits = [n for n in MODEL_AVAILABLE if spec.endswith(n)]
         if hits:
@@ -263,18 +273,18 @@ class ModelWrap:
             spec = spec[:-len(name)]
             if spec.endswith(':'):
                 spec = spec[:-1]
-            text = getattr(self.formatter, name)(self.value)
+            text = getattr(self._mw_formatter, name)(self._mw_value)
         return format(text, spec)
 
-    # a template may reach into a field: {node.lineno}, {names[0]}
+    # a template may reach into a field: {node.lineno}, {names[0]} -- whatever the attribute is called ({node.value})
     def __getattr__(self, key):
-        return ModelWrap(getattr(self.value, key), self.formatter)
+        return ModelWrap(getattr(self._mw_value, key), self._mw_formatter)
 
     def __getitem__(self, index):
-        return ModelWrap(self.value[index], self.formatter)
+        return ModelWrap(self._mw_value[index], self._mw_formatter)
 
     def __str__(self):
-        return str(self.value)
+        return str(self._mw_value)
 
 
 MODEL_AVAILABLE = ['exception', 'filename', 'frame', 'traceback', 'inputs', 'line', 'name', 'output',
